@@ -4,7 +4,7 @@
 // decides CPU-budget overruns; this file adds the allocation bound, the linear-CPU bound, "OK => walkable",
 // "failed => destructible and reusable", "gateway after Reset() delivers a valid stream intact").
 // --opt mode=  regress | msg | tmsg | mini | micro | parsers (k%4 over the four Message parsers, for memcheck)
-//              | gw | tgw | text | raw | slip | ws | tunnel | minitunnel | cgw | deepnest
+//              | gw | tgw | text | raw | slip | ws | tunnel | minitunnel | cgw | zcodec (ZLibCodec / ZLibUtilityFunctions direct entry points) | deepnest
 // Case addressing inside a mode: cases [0,S) are the exhaustive sweeps over the first --opt sweepT / sweepW bases
 // (every prefix; every length/count/type/size word x every boundary value), S depends only on (seed, mode);
 // cases >= S: base = 1000 + (k-S)/50, family by (k-S)%50: 0 valid, 1-10 truncation, 11-30 single word,
@@ -18,6 +18,9 @@
 #include "iogateway/WebSocketMessageIOGateway.h"
 #include "iogateway/PacketTunnelIOGateway.h"
 #include "iogateway/MiniPacketTunnelIOGateway.h"
+#include "zlib/ZLibCodec.h"
+#include "zlib/ZLibUtilityFunctions.h"
+#include <zlib.h>
 #include "dataio/DataIO.h"
 #include "dataio/PacketDataIO.h"
 #include "system/SetupSystem.h"
@@ -61,10 +64,10 @@ struct Pipe { std::deque<uint8_t> q; };
 static uint32_t Chop(uint32_t n) { if (n == 0) return 0; switch (R(7)) { case 0: return 0; case 1: return 1; case 2: return n; case 3: return 1 + R(n < 8 ? n : 8); case 4: return n > 1 ? n - 1 : 1; default: return 1 + R(n); } }
 class ChopIO : public DataIO {
 public:
-   Pipe * rd; Bytes * wr; bool chop;
-   ChopIO(Pipe * r, Bytes * w, bool c = true) : rd(r), wr(w), chop(c) {}
-   virtual io_status_t Read(void * b, uint32 size) { if (!rd) return io_status_t(0); uint32_t avail = (uint32_t)rd->q.size(); uint32_t m = avail < size ? avail : size; uint32_t n = chop ? Chop(m) : m; for (uint32_t i = 0; i < n; i++) { ((uint8_t *)b)[i] = rd->q.front(); rd->q.pop_front(); } return io_status_t((int32)n); }
-   virtual io_status_t Write(const void * b, uint32 size) { if (wr) wr->append((const char *)b, size); return io_status_t((int32)size); }
+   Pipe * rd; Bytes * wr; bool chop, noZero, partialWrites; long failWriteAfter;   // failWriteAfter >= 0: the Write side accepts that many more bytes (in partial writes), then reports an error
+   ChopIO(Pipe * r, Bytes * w, bool c = true) : rd(r), wr(w), chop(c), noZero(false), partialWrites(false), failWriteAfter(-1) {}
+   virtual io_status_t Read(void * b, uint32 size) { if (!rd) return io_status_t(0); uint32_t avail = (uint32_t)rd->q.size(); uint32_t m = avail < size ? avail : size; uint32_t n = chop ? Chop(m) : m; if (noZero && n == 0 && m > 0) n = 1; for (uint32_t i = 0; i < n; i++) { ((uint8_t *)b)[i] = rd->q.front(); rd->q.pop_front(); } return io_status_t((int32)n); }
+   virtual io_status_t Write(const void * b, uint32 size) { uint32_t n = size; if (partialWrites && size > 1) { n = Chop(size); if (n == 0) n = 1; } if (failWriteAfter >= 0) { if (failWriteAfter == 0) return io_status_t(B_IO_ERROR); if ((long)n > failWriteAfter) n = (uint32_t)failWriteAfter; failWriteAfter -= n; } if (wr) wr->append((const char *)b, n); return io_status_t((int32)n); }
    virtual void FlushOutput() {} virtual void Shutdown() {}
    virtual const ConstSocketRef & GetReadSelectSocket() const { return GetNullSocket(); } virtual const ConstSocketRef & GetWriteSelectSocket() const { return GetNullSocket(); }
 };
@@ -87,7 +90,7 @@ public:
 // ---------------------------------------------------------------------- where the length/count/type/size words are
 // Flattened Message (layout comment in Message::Flatten): proto, what, nfields, { namelen, name, type, paylen, payload }*
 // payload: fixed-size types = raw items; B_MESSAGE_TYPE = { subsize, sub-Message }*; everything else = count, { itemlen, bytes }*
-enum { WK_U32 = 0, WK_TYPE, WK_WSFRAME };
+enum { WK_U32 = 0, WK_TYPE, WK_WSFRAME, WK_BYTE };
 struct Word { uint32_t off; const char * role; int kind; uint32_t end; /* end of the enclosing buffer (for the "remaining bytes" values) */ };
 struct FieldExt { uint32_t start, end, payOff, payLen; };
 static bool IsFixedType(uint32_t tc) { switch (tc) { case B_BOOL_TYPE: case B_DOUBLE_TYPE: case B_FLOAT_TYPE: case B_INT64_TYPE: case B_INT32_TYPE: case B_INT16_TYPE: case B_INT8_TYPE: case B_POINT_TYPE: case B_RECT_TYPE: case B_POINTER_TYPE: case B_TAG_TYPE: return true; } return false; }
@@ -162,7 +165,7 @@ static void WalkMiniTunnelPkt(const Bytes & b, std::vector<Word> & w)
 // ------------------------------------------------------------------------------------- boundary values for a word
 static const uint32_t TYPECODES[] = {B_BOOL_TYPE, B_DOUBLE_TYPE, B_FLOAT_TYPE, B_INT64_TYPE, B_INT32_TYPE, B_INT16_TYPE, B_INT8_TYPE, B_MESSAGE_TYPE, B_POINTER_TYPE, B_POINT_TYPE, B_RECT_TYPE, B_STRING_TYPE, B_RAW_TYPE, B_TAG_TYPE, B_ANY_TYPE, 0x75737231u, 0u, 0xffffffffu};
 enum { NLENV = 27, NTYPEV = (int)(sizeof(TYPECODES) / sizeof(TYPECODES[0])), NWSV = 40 };
-static uint32_t Slots(const Word & w) { return w.kind == WK_WSFRAME ? NWSV : w.kind == WK_TYPE ? NLENV + NTYPEV : NLENV; }
+static uint32_t Slots(const Word & w) { return w.kind == WK_BYTE ? 10 : w.kind == WK_WSFRAME ? NWSV : w.kind == WK_TYPE ? NLENV + NTYPEV : NLENV; }
 static uint32_t LenValue(uint32_t slot, uint32_t v, uint32_t after)
 {
    switch (slot) { case 0: return 0; case 1: return 1; case 2: return 2; case 3: return 3; case 4: return 4; case 5: return v - 1; case 6: return v + 1; case 7: return v + 4; case 8: return after; case 9: return after + 1; case 10: return after - 1;
@@ -189,14 +192,15 @@ static std::string ApplyWsSlot(Bytes & b, uint32_t off, uint32_t slot)
 static std::string ApplyWord(Bytes & b, const Word & w, uint32_t slot)
 {
    if (w.kind == WK_WSFRAME) return ApplyWsSlot(b, w.off, slot);
+   if (w.kind == WK_BYTE) { if (w.off >= b.size()) return "byte-beyond"; const uint8_t o = (uint8_t)b[w.off]; const uint8_t nb = slot < 8 ? (uint8_t)(o ^ (1u << slot)) : slot == 8 ? 0 : 0xff; b[w.off] = (char)nb; return vh::fmt("%s@%u=%02x(was %02x)", w.role, w.off, nb, o); }
    const uint32_t v = rd32(b, w.off), after = w.end > w.off + 4 ? w.end - (w.off + 4) : 0;
    const uint32_t nv = (w.kind == WK_TYPE && slot >= NLENV) ? TYPECODES[slot - NLENV] : LenValue(slot, v, after);
    wr32(b, w.off, nv); return vh::fmt("%s@%u=%08x(was %08x)", w.role, w.off, nv, v);
 }
 
 // ------------------------------------------------------------------------------------------------- valid material
-enum { E_MSG = 0, E_TMSG, E_MINI, E_MICRO, E_GW, E_TGW, E_TEXT, E_RAW, E_SLIP, E_WS, E_TUNNEL, E_MINITUNNEL, E_CGW, NE };
-static const char * const ENAME[NE] = {"msg", "tmsg", "mini", "micro", "gw", "tgw", "text", "raw", "slip", "ws", "tunnel", "minitunnel", "cgw"};
+enum { E_MSG = 0, E_TMSG, E_MINI, E_MICRO, E_GW, E_TGW, E_TEXT, E_RAW, E_SLIP, E_WS, E_TUNNEL, E_MINITUNNEL, E_CGW, E_ZCODEC, NE };
+static const char * const ENAME[NE] = {"msg", "tmsg", "mini", "micro", "gw", "tgw", "text", "raw", "slip", "ws", "tunnel", "minitunnel", "cgw", "zcodec"};
 enum { DG_MSG = 0, DG_TEXT, DG_RAW, DG_SLIP, DG_WS };
 static int DigestKind(int e) { return e == E_TEXT ? DG_TEXT : e == E_RAW ? DG_RAW : e == E_SLIP ? DG_SLIP : e == E_WS ? DG_WS : DG_MSG; }
 static Bytes FlatBytes(const Message & m) { const uint32 n = m.FlattenedSize(); Bytes b(n, '\0'); if (n) m.FlattenToBytes((uint8 *)&b[0], n); return b; }
@@ -219,6 +223,7 @@ struct Base {
    std::vector<Bytes> units; std::vector<std::vector<Word> > words; std::vector<std::vector<FieldExt> > ext;
    std::vector<MessageRef> msgs; MessageRef tmpl, tmpl2; uint32_t tmplSize;
    Bytes expect;                       // digest the receiver must produce for the unmodified units
+   std::vector<Bytes> raws;            // zcodec: what each unit inflates to
    std::vector<Bytes> post; Bytes postExpect;   // a valid stream / packet list from a FRESH sender, fed after Reset()
    Base() : entry(0), variant(0), mtu(0), tmplSize(0) {}
 };
@@ -277,6 +282,38 @@ static std::vector<MessageRef> GenMsgList(int e, int v, vh::Rng & r, int sizeKin
    return l;
 }
 static Bytes ExpectOf(int e, const std::vector<MessageRef> & l) { Bytes d; for (size_t i = 0; i < l.size(); i++) AppendDigest(DigestKind(e), *l[i](), d); return d; }
+
+// zcodec: buffers as ZLibCodec::Deflate() makes them = magic ('zlib' dependent / 'zlic' independent), declared raw size, deflate data.
+// variant % 6: 0 one independent buffer, 1 a dependent stream of 2-4 buffers from one codec (must be inflated in order), 2 a FINISHED zlib stream
+// (compress2) behind the header, 3 stored blocks (level 0), 4 DeflateByteBuffer() of a flattened Message, 5 a large low-entropy buffer (many output chunks)
+static Bytes ZRaw(vh::Rng & r, int kind, int sk)
+{
+   Bytes b;
+   switch (kind) {
+   case 0: { MessageRef m = GenMsg(r, sk); b = FlatBytes(*m()); } break;
+   case 1: { const uint32_t n = 1 + r.R(r.R(4) == 0 ? 5000 : 300); static const char * const words[] = {"muscle ", "message ", "gateway ", "zlib ", "0123456789 ", "\n"}; while (b.size() < n) b += words[r.R(6)]; b.resize(n); } break;
+   case 2: { const uint32_t n = 1 + r.R(400); for (uint32_t i = 0; i < n; i++) b.push_back((char)r.next()); } break;
+   default: { const uint32_t n = 300000 + r.R(400000); b.assign(n, '\0'); for (uint32_t i = 0; i < n; i += 1 + r.R(5000)) b[i] = (char)r.next(); } break;
+   }
+   return b;
+}
+static Bytes ZHeader(bool independent, uint32_t rawLen) { Bytes h; put32(h, independent ? ZMAGIC_IND : ZMAGIC_DEP); put32(h, rawLen); return h; }
+static Bytes BBBytes(const ByteBufferRef & bb) { if (bb() == NULL) { fprintf(stderr, "HARNESS-ABORT: Deflate failed on valid data\n"); abort(); } return Bytes((const char *)bb()->GetBuffer(), bb()->GetNumBytes()); }
+static void BuildZBase(Base & B, vh::Rng & r, int v, int sk, bool sweepBase)
+{
+   const int zv = v % 6; const int lvl = 1 + (int)r.R(9);
+   if (zv == 1) { ZLibCodec c(lvl); const uint32_t n = 2 + r.R(3); for (uint32_t i = 0; i < n; i++) { const Bytes raw = ZRaw(r, (int)r.R(3), sweepBase ? 0 : 1); B.raws.push_back(raw); B.units.push_back(BBBytes(c.Deflate((const uint8 *)raw.data(), (uint32)raw.size(), i == 0 && r.R(2)))); } }
+   else {
+      const Bytes raw = ZRaw(r, zv == 4 ? 0 : zv == 5 ? 3 : (int)r.R(3), sk); B.raws.push_back(raw);
+      if (zv == 2 || zv == 3) { uLongf cl = compressBound((uLong)raw.size()); Bytes comp(cl, '\0'); if (compress2((Bytef *)&comp[0], &cl, (const Bytef *)raw.data(), (uLong)raw.size(), zv == 3 ? 0 : lvl) != Z_OK) { fprintf(stderr, "HARNESS-ABORT: compress2\n"); abort(); } comp.resize(cl); B.units.push_back(ZHeader(true, (uint32_t)raw.size()) + comp); }
+      else if (zv == 4) B.units.push_back(BBBytes(DeflateByteBuffer((const uint8 *)raw.data(), (uint32)raw.size(), lvl)));
+      else { ZLibCodec c(lvl); B.units.push_back(BBBytes(c.Deflate((const uint8 *)raw.data(), (uint32)raw.size(), true))); }
+   }
+   for (size_t i = 0; i < B.units.size(); i++) { std::vector<Word> w; const uint32_t n = (uint32_t)B.units[i].size(); AddW(w, 0, "zlib-magic", n); AddW(w, 4, "zlib-rawsize", n);
+      for (uint32_t o = 8; o < n; o += (o < 24 || o + 8 >= n) ? 1 : 1 + (n / 12)) AddW(w, o, "zdata-byte", n, WK_BYTE);
+      B.words.push_back(w); B.ext.push_back(std::vector<FieldExt>()); }
+   const Bytes praw = ZRaw(r, 1, 0); ZLibCodec c2(6); B.post.push_back(BBBytes(c2.Deflate((const uint8 *)praw.data(), (uint32)praw.size(), true))); B.postExpect = praw;
+}
 static void BuildBase(Base & B, int e, uint64_t seed, long idx, bool sweepBase)
 {
    vh::Rng r(vh::case_seed(seed, 0xC02B00 + e, (uint64_t)idx));
@@ -303,6 +340,7 @@ static void BuildBase(Base & B, int e, uint64_t seed, long idx, bool sweepBase)
       }
       return;
    }
+   if (e == E_ZCODEC) { BuildZBase(B, r, v, sk, sweepBase); return; }
    const uint32_t nm = (e == E_TGW) ? 2 + r.R(4) : 1 + r.R(3);
    B.msgs = GenMsgList(e, v, r, sk, nm); B.expect = ExpectOf(e, B.msgs);
    std::vector<MessageRef> pm = GenMsgList(e, v, r, 0, 1 + r.R(2)); B.postExpect = ExpectOf(e, pm);
@@ -390,6 +428,14 @@ static void MutStructure(const Base & B, const Base & O, std::vector<Bytes> & u,
       return;
    }
    if (e == E_TMSG) { const uint32_t k = R(3); if (k == 0) { m.altTemplate = true; m.desc = "payload parsed against the template of a different Message"; } else if (k == 1) { u[0] = u[0].substr(0, R((uint32_t)u[0].size() + 1)) + O.units[0].substr(R((uint32_t)O.units[0].size() + 1)); m.desc = "splice two payloads"; } else { u[0] += Bytes(1 + R(20), (char)R(256)); m.desc = "trailing bytes"; } return; }
+   if (e == E_ZCODEC) {
+      const uint32_t k = R(B.units.size() > 1 ? 8 : 4), ui = R((uint32_t)u.size()); Bytes & b = u[ui]; const Bytes & o = O.units[R((uint32_t)O.units.size())]; m.unit = (int)ui;
+      if (k == 0) { const uint32_t l = 1 + R(R(4) == 0 ? 400 : 64); for (uint32_t i = 0; i < l; i++) b.push_back((char)g.next()); m.desc = vh::fmt("unit %u: %u bytes of trailing junk", ui, l); return; }
+      if (k == 1 && b.size() >= 8 && o.size() >= 8) { b = b.substr(0, 8) + o.substr(8); m.desc = "deflate data of a foreign buffer under this header"; return; }
+      if (k == 2 && b.size() >= 8 && o.size() >= 8) { b = o.substr(0, 8) + b.substr(8); m.desc = "header of a foreign buffer over this deflate data"; return; }
+      if (k == 3 && b.size() > 8) { b = b.substr(0, 8) + b.substr(8 + R((uint32_t)b.size() - 8)); m.desc = "deflate data starts in the middle"; return; }
+      // (k >= 4: several dependent buffers -> the packet-list mutations below: wrong order, dropped, duplicated, foreign, spliced, merged)
+   }
    if (B.units.size() == 1) {
       Bytes & b = u[0]; const std::vector<FieldExt> & f = B.ext[0]; const uint32_t k = R(6);
       if (IsFramedStream(e) && !f.empty() && k < 4) {
@@ -763,6 +809,66 @@ static void FeedCGateway(const Base & B, const std::vector<Bytes> & units, const
    bool err2 = false; const long n2 = micro ? PumpMicroGw(B.post[0], err2) : PumpMiniGw(B.post[0], err2); vh::stat("cgw_fresh_gateway_delivered", n2);   // the C gateways have no Reset(): a fresh one
 }
 
+// ------------------------------------------------------------------------------- ZLibCodec / ZLibUtilityFunctions directly
+enum { ZA_INFLATE_REF = 0, ZA_INFLATE_BUF, ZA_UTIL_INFLATEBYTEBUFFER, ZA_UTIL_INFLATEMESSAGE, ZA_READINFLATEWRITE, ZA_UTIL_READINFLATEWRITE, NZA };
+static const char * const ZANAME[NZA] = {"Inflate_ref", "Inflate_buf", "InflateByteBuffer", "InflateMessage", "ReadAndInflateAndWrite", "util_ReadAndInflateAndWrite"};
+static bool ZReadInflateWrite(ZLibCodec * codec, const Bytes & in, bool valid, Bytes & out)
+{
+   Pipe p; p.q.assign(in.begin(), in.end()); ChopIO src(&p, NULL, true); src.noZero = valid || R(4) != 0;   // the API asks for blocking I/O: a 0-byte read means "no more data" and must end the call with an error
+   ChopIO dst(NULL, &out, true); dst.partialWrites = true; if (!valid && R(8) == 0) dst.failWriteAfter = (long)R(2000);
+   const status_t r = codec ? codec->ReadAndInflateAndWrite(src, dst) : ReadAndInflateAndWrite(src, dst);
+   return r.IsOK();
+}
+static void FeedZcodec(const Base & B, const std::vector<Bytes> & units, const Mut & mu)
+{
+   const bool valid = mu.family == "valid", multi = B.units.size() > 1; const int lastApi = multi ? 2 : NZA;
+   static const int multiApis[3] = {ZA_INFLATE_REF, ZA_INFLATE_BUF, ZA_READINFLATEWRITE}; const int api = multi ? multiApis[R(3)] : (int)R(NZA); (void)lastApi;
+   const bool shared = (api == ZA_UTIL_INFLATEBYTEBUFFER || api == ZA_UTIL_INFLATEMESSAGE || api == ZA_UTIL_READINFLATEWRITE);
+   vh::stat(std::string("api_") + ZANAME[api]); curDesc += std::string(" | ") + ZANAME[api];
+   ZLibCodec codec(6); const Bytes & pv = B.post[0];
+   if (shared) { ByteBufferRef pr = InflateByteBuffer((const uint8 *)pv.data(), (uint32)pv.size()); if (pr() == NULL) { Fail("not-reusable|zcodec-shared", "the per-thread codec of ZLibUtilityFunctions does not inflate a valid independent buffer (state left by an earlier case)"); return; } }   // also makes the case independent of earlier ones
+   size_t N = 0, produced = 0; std::vector<int> ok(units.size(), 0); std::vector<Bytes> outs(units.size()); std::vector<int32> sizes(units.size(), -1); std::string bad; ByteBuffer reused; MessageRef infMsg;
+   MBegin();
+   for (size_t i = 0; i < units.size(); i++) {
+      Exact ex(units[i]); N += ex.n; bool indep = false; const int32 gis = codec.GetInflatedSize(ex.p, ex.n, &indep); sizes[i] = gis;
+      const uint32_t mg = rd32(units[i], 0); const int32 want = (ex.n >= 8 && (mg == ZMAGIC_DEP || mg == ZMAGIC_IND)) ? (int32)rd32(units[i], 4) : -1;
+      if ((want < 0) != (gis < 0) || (want >= 0 && (gis != want || indep != (mg == ZMAGIC_IND)))) { bad = vh::fmt("GetInflatedSize says %d (independent=%d) for magic %08x size word %08x in %u bytes", gis, (int)indep, mg, rd32(units[i], 4), ex.n); break; }
+      switch (api) {
+      case ZA_INFLATE_REF: { ByteBufferRef r = codec.Inflate(ex.p, ex.n); if (r()) { ok[i] = 1; outs[i].assign((const char *)r()->GetBuffer(), r()->GetNumBytes()); } } break;
+      case ZA_INFLATE_BUF: { if (codec.Inflate(ex.p, ex.n, reused).IsOK()) { ok[i] = 1; outs[i].assign((const char *)reused.GetBuffer(), reused.GetNumBytes()); } } break;
+      case ZA_UTIL_INFLATEBYTEBUFFER: { ByteBufferRef r = (R(2) ? InflateByteBuffer(ex.p, ex.n) : InflateByteBuffer(ByteBuffer(ex.n, ex.p))); if (r()) { ok[i] = 1; outs[i].assign((const char *)r()->GetBuffer(), r()->GetNumBytes()); } } break;
+      case ZA_UTIL_INFLATEMESSAGE: { MessageRef m = GetMessageFromPool(0x7a6d7367u); ByteBufferRef bb = GetByteBufferFromPool(ex.n, ex.p); if (m() == NULL || bb() == NULL || m()->AddFlat(MUSCLE_ZLIB_FIELD_NAME, bb).IsError()) { bad = "HARNESS"; break; } infMsg = InflateMessage(m); if (infMsg()) { ok[i] = 1; outs[i] = FlatBytes(*infMsg()); } } break;
+      default: ok[i] = ZReadInflateWrite(api == ZA_READINFLATEWRITE ? &codec : NULL, units[i], valid, outs[i]) ? 1 : 0; break;
+      }
+      produced += outs[i].size();
+   }
+   MEnd();
+   if (bad == "HARNESS") { fprintf(stderr, "HARNESS-ABORT: cannot wrap bytes into a Message\n"); abort(); }
+   if (!bad.empty()) { Fail("zcodec|GetInflatedSize", bad); return; }
+   bool anyOk = false; for (size_t i = 0; i < units.size(); i++) {
+      if (ok[i]) { anyOk = true; if (api != ZA_UTIL_INFLATEMESSAGE && api < ZA_READINFLATEWRITE && (sizes[i] < 0 || outs[i].size() != (size_t)sizes[i])) { Fail("zcodec|ok-wrong-size", vh::fmt("%s: OK with %zu bytes although the header declares %d", ZANAME[api], outs[i].size(), sizes[i])); return; } }
+      // a cut or junk-extended buffer may only be accepted with exactly the bytes of the original (e.g. when just the trailing sync marker is missing)
+      if (ok[i] && (int)i == mu.unit && i < B.raws.size() && api != ZA_UTIL_INFLATEMESSAGE && (mu.family == "truncation" || mu.desc.find("trailing junk") != std::string::npos) && outs[i] != B.raws[i] && !(api >= ZA_READINFLATEWRITE && i > 0))
+         { if (api >= ZA_READINFLATEWRITE && outs[i].size() > B.raws[i].size() && outs[i].compare(0, B.raws[i].size(), B.raws[i]) == 0) { Fail("zcodec|stream-writes-beyond-declared-size", vh::fmt("%s returned OK but wrote %zu bytes for a header that declares %zu (the declared bytes are right, %zu more follow)", ZANAME[api], outs[i].size(), B.raws[i].size(), outs[i].size() - B.raws[i].size())); return; }
+           Fail("zcodec|ok-wrong-bytes", vh::fmt("%s: unit %zu accepted with %zu bytes that are not the %zu bytes it was deflated from", ZANAME[api], i, outs[i].size(), B.raws[i].size())); return; }
+      if (valid) { Bytes want = B.raws[i]; bool expectOk = true; if (api == ZA_UTIL_INFLATEMESSAGE) { if (B.variant % 6 == 4) wr32(want, 4, 0x7a6d7367u); else expectOk = false; }
+         if (expectOk && i > 0 && api == ZA_READINFLATEWRITE && (!ok[i] || outs[i] != want)) { vh::stat("unspecified_zcodec_stream_api_on_a_later_dependent_buffer"); break; }   // the stream form stops reading as soon as the declared size is out; the unread tail of a sync-flushed buffer (its empty stored block) never reaches the inflater, so a following DEPENDENT buffer cannot be expected to work
+         if (expectOk && (!ok[i] || outs[i] != want)) { Fail(std::string("valid-not-inflated|zcodec-") + ZANAME[api], vh::fmt("variant %d unit %zu of %zu: %s, %zu bytes instead of %zu", B.variant % 6, i, units.size(), ok[i] ? "OK" : "error", outs[i].size(), want.size())); return; } }
+   }
+   vh::stat(std::string(anyOk ? "accepted_zcodec_" : "rejected_zcodec_") + ZANAME[api]); Tally("zcodec", anyOk); vh::statmax("max_zcodec_output_bytes", (long)produced);
+   if (api == ZA_UTIL_INFLATEMESSAGE && infMsg()) UseMessage(*infMsg());
+   if (gMeasure) {
+      const size_t worst = gM.a.worst(), bound = 1100 * N + 1024 * 1024;   // deflate cannot expand by more than ~1032:1, so nothing a buffer of N bytes legitimately inflates to needs more
+      vh::statmax("max_alloc_bytes_zcodec", (long)worst); if (gM.a.refused) vh::stat("refused_requests_seen");
+      if (worst > bound) { bool declared = false; for (size_t i = 0; i < units.size(); i++) if (units[i].size() >= 8) { const size_t d = rd32(units[i], 4), single = std::max(gM.a.largest, gM.a.refused); if (d > bound / 2 && single >= d && single <= d + 64) declared = true; }
+         Fail(declared ? "declared-size-alloc|zcodec" : "alloc-bound|zcodec", vh::fmt("%s: %zu input bytes: peak live delta %zu, largest granted request %zu, largest refused request %zu > 1100*N + 1 MiB = %zu%s", ZANAME[api], N, gM.a.peak_delta, gM.a.largest, gM.a.refused, bound, declared ? " (the size word of the 8-byte header is allocated before a single byte is inflated)" : "")); return; }
+      if (gM.cpu > 50e-6 * (double)(N + produced) + 0.050) { Fail("nonlinear-cpu|zcodec", vh::fmt("%s: %zu bytes in, %zu out, %.3f CPU-s", ZANAME[api], N, produced, gM.cpu)); return; }
+   }
+   // whatever happened, a following INDEPENDENT buffer must inflate correctly (dependent ones are promised nothing after a gap or an error)
+   { ByteBufferRef pr = shared ? InflateByteBuffer((const uint8 *)pv.data(), (uint32)pv.size()) : codec.Inflate((const uint8 *)pv.data(), (uint32)pv.size());
+     if (pr() == NULL || Bytes((const char *)pr()->GetBuffer(), pr()->GetNumBytes()) != B.postExpect) Fail("not-reusable|zcodec", vh::fmt("after %s (%s) the codec does not inflate a valid independent buffer", ZANAME[api], anyOk ? "accepted" : "rejected")); else vh::stat("post_failure_independent_inflates"); }
+}
+
 // ------------------------------------------------------------------------------------------ cases: sweeps + families
 static std::map<long, Base> gBasesE[NE];
 static const Base & GetBase(int e, uint64_t seed, long idx, bool sweepBase)
@@ -791,6 +897,7 @@ static void Dispatch(int e, const Base & B, const std::vector<Bytes> & units, co
    case E_MINI: FeedMini(units[0], valid); break;
    case E_MICRO: FeedMicro(units[0], valid); break;
    case E_CGW: FeedCGateway(B, units, mu); break;
+   case E_ZCODEC: FeedZcodec(B, units, mu); break;
    default: FeedGateway(B, units, mu, limit); break;
    }
 }
@@ -903,6 +1010,14 @@ static void Regress2(long k)
      long failed = 0; for (uint32 cut = 0; cut < sz && !caseBad; cut++) { const Bytes q = p.substr(0, cut); Exact qx(q); DataUnflattener uf(qx.p, qx.n); Message r; if (cut & 1) (void)r.AddString("old", "content"); if (r.TemplatedUnflatten(*T(), uf).IsError()) { failed++; PostFailureUse(r, "tmsg"); } else UseMessage(r); }
      const Bytes v = FlatBytes(src); for (size_t cut = 0; cut < v.size() && !caseBad; cut++) { const Bytes q = v.substr(0, cut); Exact qx(q); Message r; if (r.UnflattenFromBytes(qx.p, qx.n).IsError()) { failed++; PostFailureUse(r, "msg"); } MMessage * mm = MMAllocMessage(0); if (MMUnflattenMessage(mm, qx.p, qx.n) != CB_NO_ERROR) { failed++; PostFailureUseMini(mm); } MMFreeMessage(mm); }
      vh::stat("regress_post_failure_walks", failed); if (failed < 100) Fail("regress-post-failure", "too few truncations were rejected to witness anything"); }
+   RegressCase("F56: zlib stream that ENDS (Z_STREAM_END) before the size its header declares, unread bytes behind it: ReadAndInflateAndWrite must return an error, not spin", k++);
+   { Bytes raw(200, 'a'); uLongf cl = 400; Bytes comp(cl, '\0'); if (compress2((Bytef *)&comp[0], &cl, (const Bytef *)raw.data(), 200, 6) != Z_OK) { fprintf(stderr, "HARNESS-ABORT: compress2\n"); abort(); } comp.resize(cl);
+     static const uint32_t decl[] = {5000, 201, 0x7fffffffu, 300000}; for (int d = 0; d < 4; d++) for (int junk = 0; junk < 3; junk++) for (int indep = 0; indep < 2; indep++) {
+        const Bytes in = ZHeader(indep != 0, decl[d]) + comp + Bytes(junk * 64, '\x55'); ZLibCodec codec(6); Bytes out; vh::note(vh::fmt("F56 witness: declared %u, %d junk bytes", decl[d], junk * 64));
+        if (ZReadInflateWrite(&codec, in, true, out)) Fail("regress-F56", vh::fmt("declared %u but the stream ends after 200: returned OK with %zu bytes", decl[d], out.size()));
+        Bytes out2; if (ZReadInflateWrite(NULL, in, true, out2)) Fail("regress-F56", "utility ReadAndInflateAndWrite returned OK");
+        if (decl[d] < 1000000) { Exact ex(in); if (codec.Inflate(ex.p, ex.n)() != NULL) Fail("regress-F56", "Inflate returned a buffer"); ByteBuffer bb; if (codec.Inflate(ex.p, ex.n, bb).IsOK()) Fail("regress-F56", "Inflate(buf) returned OK"); }
+        const Bytes good = ZHeader(true, 200) + comp; Exact gx(good); ByteBufferRef r = codec.Inflate(gx.p, gx.n); if (r() == NULL || Bytes((const char *)r()->GetBuffer(), r()->GetNumBytes()) != raw) Fail("regress-F56", "the codec does not inflate a valid independent buffer afterwards"); } }
    RegressCase("TelnetPlainTextMessageIOGateway: Reset() inside a telnet sub-negotiation / command, then a valid line", k++);
    { static const char * const pre[] = {"\xff\xfa", "\xff", "\xff\xfb", "abc\xff\xfa\x01\x02"}; for (int i = 0; i < 4; i++) { TelnetPlainTextMessageIOGateway gw; Rx rx(DG_TEXT); (void)PumpStream(gw, pre[i], rx, true); gw.Reset(); Rx rx2(DG_TEXT); (void)PumpStream(gw, "hello\r\n", rx2, true); if (rx2.digest != "hello\n") Fail("regress-telnet-reset", vh::fmt("after [%s] and Reset() the line 'hello' arrives as %zu digest bytes", vh::hex(pre[i], strlen(pre[i])).c_str(), rx2.digest.size())); } }
    RegressCase("WebSocketMessageIOGateway: Reset() inside a frame header / payload, then a valid frame stream", k++);
@@ -923,8 +1038,8 @@ int main(int argc, char ** argv)
    vh::Ctx & c = vh::ctx(); const std::string mode = vh::opt("mode", "msg");
    if (mode == "regress") { Regress(); Regress2(7); return Done(); }
    if (mode == "deepnest") { for (long k = c.from; k < c.from + c.cases; k++) { vh::begin_case(k); DeepNest(k); } return Done(); }
-   if (mode == "parsers") {   // the four Message parsers interleaved (memcheck leg): case k -> parser k%4, its case k/4 beyond the sweeps
-      for (long k = c.from; k < c.from + c.cases; k++) { vh::begin_case(k); RunCase((int)(k % 4), c.seed, k / 4); }
+   if (mode == "parsers") {   // the four Message parsers interleaved (memcheck leg): case k -> family k%5 (msg, tmsg, mini, micro, zcodec), its case k/5
+      for (long k = c.from; k < c.from + c.cases; k++) { vh::begin_case(k); static const int pe[5] = {E_MSG, E_TMSG, E_MINI, E_MICRO, E_ZCODEC}; RunCase(pe[k % 5], c.seed, k / 5); }
       return Done();
    }
    int e = -1; for (int i = 0; i < NE; i++) if (mode == ENAME[i]) e = i;
